@@ -392,3 +392,22 @@ func tokenizeSexp(s string) []string {
 	}
 	return toks
 }
+
+// runSingle runs one solver (z3 5.x) on a small ground query.
+func runSingle(scratch, name, query string, timeoutS int) SolverResult {
+	file := filepath.Join(scratch, sanitize(name)+".smt2")
+	if err := os.WriteFile(file, []byte(query+"(check-sat)\n"), 0644); err != nil {
+		return SolverResult{Status: "error", Output: err.Error()}
+	}
+	start := time.Now()
+	out, _ := exec.Command("z3-new", fmt.Sprintf("-T:%d", timeoutS), file).CombinedOutput()
+	first := strings.TrimSpace(strings.SplitN(string(out), "\n", 2)[0])
+	r := SolverResult{Solver: "z3-new", TimeS: time.Since(start).Seconds(), Output: string(out)}
+	switch first {
+	case "sat", "unsat", "unknown":
+		r.Status = first
+	default:
+		r.Status = "error"
+	}
+	return r
+}
